@@ -1027,6 +1027,12 @@ func (x *exec) damaged(u Unit, e *entry, t *T, b []byte, frng *core.Rng) {
 		if r, ok := o.root(); ok && r != common.Root(want) {
 			x.viol("C05", "struct-root-vs-spec-schema/"+u.Type, fmt.Sprintf("%s: struct HashTreeRoot %s, specification schema %x (value %s)", u.Type, r, want, hex8(m)))
 		}
+	case perr == ErrPadding && derr == nil:
+		// bits set beyond the length of a bitvector: the record exceeds the type's length just as an
+		// over-long bitlist exceeds its limit
+		// (not among the refusals the property names - truncated, over a limit, inconsistent offsets - and
+		// the library is not of one mind about it: counted per type in the evidence, no verdict)
+		x.res.Stat("damaged_accepted_bits_beyond_bitvector_length/"+u.Type, 1)
 	default:
 		x.res.Stat("damaged_refused", 1)
 	}
